@@ -19,16 +19,15 @@ Fibers are natural numbers and there are unboundedly many of them; every idle fi
 any time (so "all op sequences of k fibers" is built in), or `finish`.  The only discipline assumed is the
 std contract that the caller of `unlock` / `cv.wait` holds the lock (`f ∈ holders`).
 
-The model contains the code as it is, including
-  D6  `TimedMutex::TimedWaitHelper` takes the lock after a wake-up without re-checking `_occupied`
-      (single `if`, no loop): rule `tlfWokenAcq`, ghost counter `barge`;
-  D8  `Scheduler::SleepPreemptive` looks up the sleep-list bucket of a deadline that `Sleep` never inserted when
-      the jittered deadline equals the current time: ghost counter `endDeref`.
-
-The flag `fixed` switches `TimedWaitHelper` to the *proposed repair of D6* (notes/C18_proposed_patches.diff):
-`while (r && _occupied) r = _queue.Wait(deadline) == Ready;` with the deadline computed once at the call.  It is not
-the code; every theorem about the code is stated for `fixed = false`, the theorems for `fixed = true` show that the
-repair is sufficient.
+History: until the fix commits 32ae58e (TimedMutex) and 33a96a1 (Scheduler) the code had
+  D6  `TimedMutex::TimedWaitHelper` took the lock after a wake-up without re-checking `_occupied` (single `if`): two
+      holders of a `timed_mutex` after barging — scenario `timed f0=L,U f1=F50,U f2=L,U`,
+      choices `k0/3 p1/2 k0/2 x0/2 k1/2 p0/2 k0/3 p1/2 k0/2 k0/2`;
+  D8  `Scheduler::SleepPreemptive` dereferenced `_sleep_list.end()` when the jittered deadline equalled the current time —
+      scenario `timed f0=L,U f1=F0,U`, choices `k0/2 p1/2 x0/2 p0/2 p0/2`;
+and this model contained them (rule `tlfWokenAcq`, ghost counters `barge`, `endDeref`; see git history and
+notes/C18.md).  It now describes the repaired code: `while (r && _occupied) r = _queue.Wait(deadline) == Ready;` with the
+deadline computed once at the call.
 -/
 namespace Yaclib.FiberSync
 
@@ -74,8 +73,7 @@ inductive Pc where
   | locking (k : Kont)          -- inside `Mutex::lock`, about to evaluate `while (_occupied)`
   | lockParked (k : Kont)       -- parked on the mutex queue by `Mutex::lock`
   | tlfParked (req dl : Nat)    -- `TimedMutex::TimedWaitHelper`: on the mutex queue and the sleep list
-  | tlfWoken                    -- … notified: `r = true`, takes the lock next (D6: no re-check)
-  | tlfLocking (req : Nat)      -- (repaired variant only) notified: evaluates `while (r && _occupied)` again
+  | tlfLocking (req : Nat)      -- … notified: evaluates `while (r && _occupied)` again
   | cvParked                    -- `cv.wait`: mutex released, on the cv queue
   | cvTimed (req dl : Nat)      -- `cv.wait_for`: on the cv queue and the sleep list
   | sleeping (dl : Nat)         -- `this_thread::sleep_for`
@@ -84,7 +82,6 @@ inductive Pc where
 /-- notified waiters that have not run yet -/
 def Pc.woken : Pc → Bool
   | .locking _ => true
-  | .tlfWoken => true
   | .tlfLocking _ => true
   | _ => false
 
@@ -99,14 +96,13 @@ def Pc.inCq : Pc → Bool
   | _ => false
 
 /-- the state in which a fiber removed from the mutex queue by `NotifyOne` resumes -/
-def wake (fixed : Bool) : Pc → Pc
+def wake : Pc → Pc
   | .lockParked k => .locking k
-  | .tlfParked req _ => if fixed then .tlfLocking req else .tlfWoken
+  | .tlfParked req _ => .tlfLocking req
   | p => p
 
 structure State where
   timed : Bool                 -- the mutex is a `timed_mutex` (has `try_lock_for/until`)
-  fixed : Bool                 -- hypothetical: D6 repaired in `TimedWaitHelper` (see header); `false` = the code
   pc : Fid → Pc
   occupied : Bool              -- `Mutex::_occupied`
   mq : List Fid                -- `Mutex::_queue`, in list order (PushBack at the end)
@@ -115,13 +111,11 @@ structure State where
   -- ghost
   holders : List Fid           -- fibers whose last acquisition succeeded and that have not released since
   transit : List Fid           -- fibers made runnable by a NotifyOne on the mutex queue that have not run yet
-  barge : Nat                  -- D6 hits: a woken timed waiter set `_occupied = true` while it was already true
-  endDeref : Nat               -- D8 hits: `_sleep_list.find(ns)` on a deadline that was never inserted
 
 /-- `n` fibers (0 … n-1) exist; the others never run -/
-def init (timed fixed : Bool) (n : Nat) : State :=
-  { timed := timed, fixed := fixed, pc := fun g => if g < n then .idle else .done, occupied := false, mq := [], cq := [], now := 0,
-    holders := [], transit := [], barge := 0, endDeref := 0 }
+def init (timed : Bool) (n : Nat) : State :=
+  { timed := timed, pc := fun g => if g < n then .idle else .done, occupied := false, mq := [], cq := [], now := 0,
+    holders := [], transit := [] }
 
 inductive Label where
   | lockStart (f : Fid)                          -- `f E call lock`
@@ -132,7 +126,7 @@ inductive Label where
   | tlfAcq (f : Fid)                             -- `f E ret try_lock_for 1`
   | tlfPark (f : Fid) (t d j : Nat)              -- `f M m park_timed 0 @t j=j` after `call try_lock_for d`
   | tlfTimeout (f : Fid) (t : Nat)               -- `f M m wake 1 @t`
-  | tlfRepark (f : Fid) (j : Nat)                -- (repaired variant) `f M m park_timed 0 j=j` after a wake-up
+  | tlfRepark (f : Fid) (j : Nat)                -- `f M m park_timed 0 j=j` after a wake-up
   | cvWait (f : Fid) (w : Option Fid)            -- unlock + notify_one + `f M cq park 0`
   | cvWaitFor (f : Fid) (w : Option Fid) (t d j : Nat)
   | cvTimeout (f : Fid) (t : Nat)                -- `f M cq wake 1 @t`
@@ -148,7 +142,7 @@ inductive Label where
 /-- `FiberQueue::NotifyOne` on the mutex queue -/
 def notifyM (s : State) : Option Fid → State
   | none => s
-  | some g => { s with mq := rm s.mq g, pc := upd s.pc g (wake s.fixed (s.pc g)), transit := s.transit ++ [g] }
+  | some g => { s with mq := rm s.mq g, pc := upd s.pc g (wake (s.pc g)), transit := s.transit ++ [g] }
 
 /-- `_occupied = true` by fiber `f` returning to its caller -/
 def acquire (s : State) (f : Fid) : State :=
@@ -162,12 +156,7 @@ def release (s : State) (f : Fid) (w : Option Fid) : State :=
   notifyM { s with occupied := false, holders := s.holders.erase f } w
 
 def doTlfPark (s : State) (f : Fid) (t d j : Nat) : State :=
-  { s with mq := s.mq ++ [f], pc := upd s.pc f (.tlfParked (t + d) (t + d + j)), now := t,
-           endDeref := s.endDeref + (if d + j = 0 then 1 else 0) }
-
-/-- D6: `if (r) { _occupied = true; }` after the wait, whatever `_occupied` is now -/
-def doTlfWokenAcq (s : State) (f : Fid) : State :=
-  { acquire s f with barge := s.barge + (if s.occupied then 1 else 0) }
+  { s with mq := s.mq ++ [f], pc := upd s.pc f (.tlfParked (t + d) (t + d + j)), now := t }
 
 def doTlfRepark (s : State) (f : Fid) (req j : Nat) : State :=
   { s with mq := s.mq ++ [f], pc := upd s.pc f (.tlfParked req (req + j)), transit := rm s.transit f }
@@ -181,8 +170,7 @@ def doCvWait (s : State) (f : Fid) (w : Option Fid) : State :=
 
 def doCvWaitFor (s : State) (f : Fid) (w : Option Fid) (t d j : Nat) : State :=
   let s1 := release s f w
-  { s1 with cq := s1.cq ++ [f], pc := upd s1.pc f (.cvTimed (t + d) (t + d + j)), now := t,
-            endDeref := s1.endDeref + (if d + j = 0 then 1 else 0) }
+  { s1 with cq := s1.cq ++ [f], pc := upd s1.pc f (.cvTimed (t + d) (t + d + j)), now := t }
 
 def doCvTimeout (s : State) (f : Fid) (t : Nat) : State :=
   { s with cq := rm s.cq f, pc := upd s.pc f (.locking (.cv true)), now := t }
@@ -216,10 +204,7 @@ inductive Step : State → Label → State → Prop where
   /-- … true on entry: `_queue.Wait(deadline)` = push on the queue + `SleepPreemptive(deadline + jitter)` -/
   | tlfPark (s : State) (f : Fid) (t d j : Nat) (hk : s.timed = true) (h : s.pc f = .idle) (ho : s.occupied = true)
       (ht : s.now ≤ t) : Step s (.tlfPark f t d j) (doTlfPark s f t d j)
-  /-- … woken by a notify: takes the lock (D6) -/
-  | tlfWokenAcq (s : State) (f : Fid) (hk : s.timed = true) (hx : s.fixed = false) (h : s.pc f = .tlfWoken) :
-      Step s (.tlfAcq f) (doTlfWokenAcq s f)
-  /-- (repaired variant) woken by a notify: the loop condition is evaluated again -/
+  /-- … woken by a notify: the loop condition is evaluated again -/
   | tlfRecheckAcq (s : State) (f : Fid) (req : Nat) (hk : s.timed = true) (h : s.pc f = .tlfLocking req)
       (ho : s.occupied = false) : Step s (.tlfAcq f) (acquire s f)
   | tlfRepark (s : State) (f : Fid) (req j : Nat) (hk : s.timed = true) (h : s.pc f = .tlfLocking req)
@@ -243,9 +228,9 @@ inductive Step : State → Label → State → Prop where
       Step s (.sleepWake f t) { s with pc := upd s.pc f .idle, now := t }
   | finish (s : State) (f : Fid) (h : s.pc f = .idle) : Step s (.finish f) { s with pc := upd s.pc f .done }
 
-inductive Reachable (timed fixed : Bool) (n : Nat) : State → Prop where
-  | init : Reachable timed fixed n (init timed fixed n)
-  | step {s l s'} : Reachable timed fixed n s → Step s l s' → Reachable timed fixed n s'
+inductive Reachable (timed : Bool) (n : Nat) : State → Prop where
+  | init : Reachable timed n (init timed n)
+  | step {s l s'} : Reachable timed n s → Step s l s' → Reachable timed n s'
 
 /-- nothing can move, now or at any later virtual time (an idle fiber can always start an operation, a sleeper or
     timed waiter can always time out, so in such a state every fiber is `done` or blocked for good) -/
@@ -272,7 +257,6 @@ def next (s : State) : Label → Option State
       if s.timed = true then
         match s.pc f with
         | .idle => if s.occupied = false then some (acquire s f) else none
-        | .tlfWoken => if s.fixed = false then some (doTlfWokenAcq s f) else none
         | .tlfLocking _ => if s.occupied = false then some (acquire s f) else none
         | _ => none
       else none
@@ -344,9 +328,6 @@ theorem next_sound {s : State} {l : Label} {s' : State} (h : next s l = some s')
       · rename_i hk; split at h
         · rename_i hp; split at h
           · rename_i ho; cases h; exact .tlfFast s f hk hp ho
-          · cases h
-        · rename_i hp; split at h
-          · rename_i hx; cases h; exact .tlfWokenAcq s f hk hx hp
           · cases h
         · rename_i req hp; split at h
           · rename_i ho; cases h; exact .tlfRecheckAcq s f req hk hp ho
